@@ -1,7 +1,8 @@
 """C05 Compiled programs release every heap block exactly once.
 Monitors on executions of generated programs (ownership-biased): (1) the allocation ledger interposed on
 ddp_reallocate (exactly-once release, true size, nothing live at normal exit), (2) valgrind memcheck on the
-unmodified optimised executable, (3) ASan+UBSan build of runtime/stdlib linked with the object kddp emits.
+unmodified optimised executable, (3) ASan+UBSan build of runtime/stdlib linked with the object kddp emits, (4) asan_ir: the LLVM IR kddp emits for
+the whole program, instrumented by clang's AddressSanitizer (every load/store of the generated code is checked), linked with (3)'s libraries.
 All must be silent. A violating program is reduced and its shape named in the signature."""
 import json
 import os
@@ -102,17 +103,26 @@ def monitors(prog, workdir, O, which, exp):
                 return "ok", detail
             return "memcheck:" + cls, detail
         return "ok", detail
-    if which == "asan":
-        obj = os.path.join(workdir, "m_asan.o")
-        c = vlib.kddp_compile(sp, obj, O=O)
-        if c.timed_out:
-            return "inconclusive", detail
-        if c.rc != 0:
-            return "compile:" + runner.compile_class(c.err), dict(detail, stderr=c.err[-2000:])
-        exe = os.path.join(workdir, "m_asan")
-        l = vlib.link_asan(obj, exe)
-        if l.rc != 0:
-            return "inconclusive", dict(detail, link=l.err[-500:])
+    if which in ("asan", "asan_ir"):
+        exe = os.path.join(workdir, "m_" + which)
+        if which == "asan_ir":
+            stage, c = vlib.compile_asan_ir(sp, exe, O=O)
+            if c.timed_out:
+                return "inconclusive", detail
+            if stage == "kddp":
+                return "compile:" + runner.compile_class(c.err), dict(detail, stderr=c.err[-2000:])
+            if stage != "ok":
+                return "inconclusive", dict(detail, stage=stage, err=c.err[-500:])
+        else:
+            obj = os.path.join(workdir, "m_asan.o")
+            c = vlib.kddp_compile(sp, obj, O=O)
+            if c.timed_out:
+                return "inconclusive", detail
+            if c.rc != 0:
+                return "compile:" + runner.compile_class(c.err), dict(detail, stderr=c.err[-2000:])
+            l = vlib.link_asan(obj, exe)
+            if l.rc != 0:
+                return "inconclusive", dict(detail, link=l.err[-500:])
         r = vlib.run_exe(exe, env_extra=vlib.ASAN_ENV, wall_s=60, cpu_s=30)
         if r.timed_out:
             return "inconclusive", detail
@@ -121,7 +131,7 @@ def monitors(prog, workdir, O, which, exp):
         if m:
             what = m.group(1) or ("ubsan " + re.sub(r"0x[0-9a-f]+|\d+", "N", m.group(2))[:60])
             fr = re.search(r"#\d+ \S+ in (ddp_\w+|\w+)", r.err)
-            return "asan:%s%s" % (what, (" in " + fr.group(1)) if fr else ""), detail
+            return "%s:%s%s" % (which, what, (" in " + fr.group(1)) if fr else ""), detail
         return "ok", detail
     raise ValueError(which)
 
@@ -133,7 +143,7 @@ def run(tier):
     chk.rule = ("seeded ownership-biased statement programs (Text, lists, lists of Text, Kombinationen with Text/list fields, lists of Kombinationen, Variable in "
                 "every role: global, local, temporary, by-value and Referenz argument, return value, list element, field, loop collection/element; early return, "
                 "break/continue from inner scopes, short-circuit operands, falls arms, discarded results; functions also forward declared / generic); every fourth program is one of C08's copy/alias programs. Monitors per program: allocation ledger at -O 0/1/2, "
-                "valgrind memcheck at -O 1 (thorough: 0/1/2), ASan+UBSan runtime at -O 1. Distinct by source hash; non-trivial = ledger saw >= 1 allocation.")
+                "valgrind memcheck at -O 1 (thorough: 0/1/2), ASan+UBSan runtime at -O 1 (every third program), ASan-instrumented emitted IR (every third program; thorough: all). Distinct by source hash; non-trivial = ledger saw >= 1 allocation.")
     chk.assumptions = ["leak rule only for executions that end through main's return", "a pointer the ledger never saw (obtained by library code through malloc) is counted, not judged",
                        "ASan leak detection is off (ledger and memcheck decide leaks)", "programs stay inside the reference model's domain (no runtime errors)"]
     plan = []
@@ -143,6 +153,8 @@ def run(tier):
             mons += [("memcheck", 0), ("memcheck", 2)]
         if i % 3 == 0:
             mons.append(("asan", 1))
+        if i % 3 == 1 or tier == "thorough":
+            mons.append(("asan_ir", 0))
         plan.append((i, mons))
     with Scratch("c05") as sc:
         def work(job):
